@@ -8,7 +8,7 @@ COMP = "pipeline"
 BINARY = "vh-pipeline"
 
 C01_NOTE = "C01: Conservation CloseAfterDrain SetupOnce EofComplete NoStall (+ order for one worker / Buffer)"
-C04_NOTE = "C04: AllDone BlockedConsumerReleased RunReturns CloseIdempotent NoopCloseStartsNothing; liveness Settles, LiveTerminates (finite input => <>EOF under weak fairness)"
+C04_NOTE = "C04: AllDone BlockedConsumerReleased NoDeadlock (Split: consumers with contexts of their own) RunReturns CloseIdempotent NoopCloseStartsNothing; liveness Settles, LiveTerminates (finite input => <>EOF under weak fairness)"
 
 # (module, cfg) of the implementation-shaped specs; every cfg checks the C01 and the C04 invariants of
 # its module on the same state space (the C01 ones bind in undisturbed states, the C04 ones after a stop)
@@ -25,6 +25,11 @@ IMPL_FULL = [
     ("Workers", "MC_map_live.cfg"), ("Workers", "MC_pp_live.cfg"), ("Workers", "MC_pbuf_live.cfg"),
     ("Split", "MC_split_live.cfg"), ("Merge", "MC_merge_live.cfg"), ("Generate", "MC_gen_live.cfg"),
     ("Buffer", "MC_buffer_live.cfg"),
+    # a room check followed by a plain send is harmless for ONE sender (the mutation needs several, see MUT_C04)
+    ("Workers", "MC_pbuf_fastpath1.cfg"),
+    # a generator that respects its context; and "a context error may be continued" on top of it, which the worker
+    # loop of GenerateParallel survives because it looks at its context before every call
+    ("Generate", "MC_gen_ctx.cfg"), ("Generate", "MC_gen_ctx_continue.cfg"),
 ]
 # seeded mutations of the Impl specs: the named invariant MUST be violated (non-vacuity self-tests)
 MUT_C01 = [
@@ -39,6 +44,9 @@ MUT_C04 = [
     ("Buffer", "MC_buffer_mut_noposthook.cfg", "NoStall", "PostHook close removed: consumer never sees io.EOF"),
     ("FirstAdvance", "MC_firstadvance_asis.cfg", "NoPanic", "as pinned: Close between the state check and the once of the first advance panics"),
     ("Split", "MC_split_abandon.cfg", "NoLeakOnPartialClose", "explored, not judged (DESIGN 5.0): abandoning the output whose context the reader uses"),
+    ("Split", "MC_split_mut_eofclose.cfg", "NoDeadlock", "the pipe is closed only when the input reports io.EOF: a reader that ends with its context leaves the siblings blocked"),
+    ("Workers", "MC_pbuf_mut_fastpath.cfg", "AllDone", "room check + plain send with several senders on one buffered pipe: the loser ignores its context"),
+    ("Generate", "MC_gen_mut_spin.cfg", "Settles", "a context error is continued and the worker loop has no context check of its own: the worker calls a context-respecting generator for ever"),
 ]
 
 
@@ -64,7 +72,8 @@ def run_mutations(rep, muts, *, par=3):
         return m, tlc.run_tlc(COMP, m[0], m[1], workers=1, timeout=300)
     with cf.ThreadPoolExecutor(max_workers=par) as ex:
         for m, r in ex.map(one, muts):
-            rep.self_test("%s/%s: model violates %s (%s)" % (m[0], m[1], m[2], m[3]), r.violated == m[2], str(r.brief()))
+            hit = r.violated == m[2] or ("Temporal property %s was violated" % m[2]) in r.out
+            rep.self_test("%s/%s: model violates %s (%s)" % (m[0], m[1], m[2], m[3]), hit, str(r.brief()))
 
 
 def gen(rep, cfg, note, *, simulate=None, depth=None, seed=None, workers=2, timeout=600):
@@ -82,7 +91,13 @@ def nontrivial(b):
     """a schedule that exercises more than start-and-finish: at least one item and a step that
     interleaves with the pipeline (a held user function, a stop, a race, or a free run)"""
     ops = [s["op"] for s in b["steps"]]
-    return b["cfg"]["n"] > 0 and (len(ops) > 1 or ops[0] in ("freerun", "race-close", "race-cancel"))
+    return b["cfg"]["n"] > 0 and (len(ops) > 1 or ops[0] in ("freerun", "race-close", "race-cancel", "race-fill-close", "race-fill-cancel"))
+
+
+def contended(b):
+    """a schedule with a contended burst: several user functions return at the same instant and their sends
+    compete for the room of the pipe (the spec asks for repetitions: arg > 1)"""
+    return any(s["op"] == "brel" and s["arg"] > 1 for s in b["steps"])
 
 
 def sample(behs, n, seed):
@@ -92,7 +107,7 @@ def sample(behs, n, seed):
 
 
 def step(op, arg, **kw):
-    d = dict(op=op, arg=arg, may=[], eofs=[], must=[], run="may", leak=False, full=False, stop="")
+    d = dict(op=op, arg=arg, set=[], may=[], eofs=[], must=[], live=[], run="may", leak=False, calls=0, full=False, stop="")
     d.update(kw)
     return d
 
@@ -100,18 +115,21 @@ def step(op, arg, **kw):
 def binding_self_tests(rep, binary, prop):
     """Feed the replayer behaviours with a deliberately wrong expectation: each must be rejected
     with the right key.  This shows the comparison is live and the oracles are not vacuous."""
-    cfg = dict(c="split", n=3, k=2, cap=0, ord=True, fn=False, out=2)
+    cfg = dict(c="split", n=3, k=2, cap=0, ord=True, fn=False, out=2, opt="", cb="plain")
     tests = []
     if prop == "C01":
         tests += [
             ("an item delivered that the spec does not allow yet", "split/output/not-allowed-yet",
              dict(cfg=cfg, steps=[step("read", 1, may=[], must=[1])])),
             ("the end of the output before every item was delivered", "buffer/eof/premature",
-             dict(cfg=dict(c="buffer", n=1, k=1, cap=1, ord=True, fn=False, out=1),
+             dict(cfg=dict(c="buffer", n=1, k=1, cap=1, ord=True, fn=False, out=1, opt="", cb="plain"),
                   steps=[step("read", 1, may=[1], must=[1]), step("read", 1, may=[1], must=[1], eofs=[])])),
             ("delivered bag differs from the input bag at the end", "map/end/item-lost",
-             dict(cfg=dict(c="map", n=2, k=2, cap=0, ord=False, fn=True, out=1),
+             dict(cfg=dict(c="map", n=2, k=2, cap=0, ord=False, fn=True, out=1, opt="", cb="plain"),
                   steps=[step("read", 1, may=[]), step("rel", 1, may=[1], must=[1], full=True)])),
+            ("a burst release is executed: both results arrive although the (wrong) expectation allows none", "pbufg/output/not-allowed-yet",
+             dict(cfg=dict(c="pbufg", n=3, k=2, cap=1, ord=False, fn=True, out=1, opt="", cb="plain"),
+                  steps=[step("read", 1, may=[]), step("brel", 2, set=[1, 2], may=[], must=[1])])),
         ]
     else:
         tests += [
@@ -119,8 +137,12 @@ def binding_self_tests(rep, binary, prop):
              dict(cfg=cfg, steps=[step("read", 1, may=[1, 2, 3], must=[1]),
                                   step("close", 2, may=[1, 2, 3], eofs=[1, 2], leak=True, stop="close-some")])),
             ("a consumer still blocked is noticed", "map/close/reader-still-blocked",
-             dict(cfg=dict(c="map", n=2, k=1, cap=0, ord=True, fn=True, out=1),
+             dict(cfg=dict(c="map", n=2, k=1, cap=0, ord=True, fn=True, out=1, opt="", cb="plain"),
                   steps=[step("read", 1, must=[1], stop="close")])),
+            ("cancelling ONE consumer's context is executed: it stops the reader it started, the sibling sees the end", "split/eof/premature",
+             dict(cfg=cfg, steps=[step("read", 1, may=[1, 2, 3], must=[1], live=[1, 2]),
+                                  step("cancel", 1, may=[1, 2, 3], eofs=[1], must=[1, 2], live=[2], stop="cancel-some"),
+                                  step("read", 2, may=[1, 2, 3], eofs=[1], must=[1, 2], live=[2], stop="cancel-some")])),
         ]
     items = [dict(n=i, beh=t[2]) for i, t in enumerate(tests)]
     rc, outs, err = harness.run(binary, ["replay"], items, timeout=120)
@@ -140,7 +162,7 @@ def _classify(item, rc, outs, err):
     return "infra", tail
 
 
-def replay_races(rep, binary, races, *, par=6, env=None, label="pipeline/stop-races-advance", timeout=900):
+def replay_races(rep, binary, races, *, par=6, env=None, label="pipeline/stop-races-advance", timeout=900, retry_env=None):
     """The race behaviours are probabilistic (the Go scheduler decides where the stop lands), so they get
     their own driver: one process per behaviour (a panic in a library goroutine kills the process), and a
     hit is re-run alone up to three times before it is reported - a VIOLATION is issued only for a
@@ -168,10 +190,18 @@ def replay_races(rep, binary, races, *, par=6, env=None, label="pipeline/stop-ra
         else:
             suspects.append((item, info.get("key") if kind == "fail" else label + "/process-crash"))
 
+    def again(item):
+        # a re-run may ask for more repetitions of the same race (VH_BURST_REPS): same schedule, same oracle
+        try:
+            rc, outs, err = harness.run(binary, ["replay"], [item], timeout=timeout, env_extra=dict(env or {}, **(retry_env or {})))
+        except harness.InfraError as e:
+            return item, ("infra", str(e))
+        return item, _classify(item, rc, outs, err)
+
     def reproduce(sus):
         item, key0 = sus
         for attempt in range(3):
-            _, (k2, i2) = one(item)
+            _, (k2, i2) = again(item)
             if k2 == "fail":
                 return key0, item, (i2.get("key", key0), i2.get("what", ""),
                                     dict(behaviour=item, result=i2, binary=BINARY, args=["replay"]))
@@ -229,6 +259,12 @@ ASSUMPTIONS = [
     "fixed point of the real run (rt.Quiesce, vh-pipeline settle)",
     "exhaustive claims hold for the constants of the cfg files only (Impl specs: n<=3, k<=2 quick; n<=4, k<=3 thorough; "
     "buffer <= 2); the interleavings between two driver steps are sampled by the Go scheduler, not enumerated",
-    "sources are finite and never block (slices, pre-filled channels, maps); user functions ignore the context and "
-    "return when released",
+    "sources are finite and never block (slices, pre-filled channels, maps); user functions return when released - "
+    "cb=plain ignores the context, cb=ctx returns the context's error as soon as that context is cancelled; no user "
+    "function fails on its own",
+    "pbufg is assembled by the harness from the public parts Iterator.ParallelBuffer is made of (ProcessParallel over "
+    "Blocking(chan).Send().Write, PostHook(buf.Close), IteratorWithHook closing the input), with a gate in front of the "
+    "send and a capacity of its own: several senders on one buffered pipe whose arrival the schedule controls",
+    "a burst (brel) lets the released user functions leave a spin latch together with GOMAXPROCS >= 4; whether their "
+    "sends really overlap is up to the hardware: bursts and fill races sample that window, they do not enumerate it",
 ]
